@@ -112,6 +112,9 @@ struct Chan {
   Cell (*act())[33] { return mem[mode == M_POPON ? disp ^ 1 : disp]; }
   bool row_empty(Cell (*m)[33], int r) const { for (int c = 1; c <= 32; c++) if (m[r][c].uc) return false; return true; }
   bool mem_empty(int k) const { for (int r = 0; r < 15; r++) for (int c = 1; c <= 32; c++) if (mem[k][r][c].uc) return false; return true; }
+  // for the style-switch guard: nothing was written since the last erase (a cell that held a character, or was next to one,
+  // may keep a solid blank in the decoder although the model's cell is empty again after BS / DER: LENIENCY legibility space)
+  bool mem_clean(int k) const { for (int r = 0; r < 15; r++) for (int c = 0; c <= 32; c++) if (mem[k][r][c].uc || mem[k][r][c].box) return false; return true; }
   void erase(int k) { for (int r = 0; r < 15; r++) for (int c = 0; c <= 32; c++) mem[k][r][c] = Cell(); unk[k] = false; }
   void erase_row(Cell (*m)[33], int r) { for (int c = 0; c <= 32; c++) m[r][c] = Cell(); }
   void advance() { if (col < 32) col++; else edge = true; }
@@ -1024,7 +1027,7 @@ struct C08 : World {
               // GUARD style-switch: caption.c keeps one working copy instead of the standard's two memories while in roll-up /
               // paint-on style (reported as a finding); the encoder clears what that design cannot carry across a style change,
               // as captioning practice does (ENM after RCL, EDM before RDC).
-              if (target == M_PAINTON && (!c.mem_empty(0) || !c.mem_empty(1) || c.tainted())) {
+              if (target == M_PAINTON && (!c.mem_clean(0) || !c.mem_clean(1) || c.tainted())) {
                 if (c.mode == M_POPON) ctl(t, misc_c1(t), 0x2E, dbl);
                 ctl(t, misc_c1(t), 0x2C, dbl);
                 guard("style_switch_erase");
